@@ -220,8 +220,31 @@ func Material(id int) *modeling.Material {
 		return &meshlib.MatB
 	case 2:
 		return &MatC
+	case 3:
+		return &MatA2
 	}
 	return nil
+}
+
+// MatA2 is a different material that happens to carry the same name as MatA (every
+// modeling.DefaultColorMaterial is called "DefaultDiffuse"; Material{} literals have an empty name):
+// materials are distinguished by identity, not by name.
+var MatA2 = modeling.Material{Name: meshlib.MatA.Name, SpecularHighlight: 7}
+
+// MaterialKey identifies a material by name *and* content (the split hands out copies, so pointer
+// identity cannot be followed through it).
+func MaterialKey(id int) string {
+	if m := Material(id); m != nil {
+		return KeyOf(m)
+	}
+	return ""
+}
+
+func KeyOf(m *modeling.Material) string {
+	if m == nil {
+		return ""
+	}
+	return fmt.Sprintf("%s/specular=%v", m.Name, m.SpecularHighlight)
 }
 
 func MaterialName(id int) string {
@@ -580,7 +603,17 @@ func splitVariants(s Shape, thorough bool) []Params {
 	}
 	for k := 1; k <= 3; k++ {
 		for _, counts := range compositions(p, k) {
-			for _, ids := range meshlib.Tuples(nm, k) {
+			// material menu: A, B, (C), and A2 = a different material with A's name
+			menu := []int{0, 1, 3}
+			if thorough {
+				menu = []int{0, 1, 2, 3}
+			}
+			_ = nm
+			for _, pick := range meshlib.Tuples(len(menu), k) {
+				ids := make([]int, k)
+				for i, x := range pick {
+					ids[i] = menu[x]
+				}
 				if k == 2 && counts[0] == p-p/2 && ids[0] == 0 && ids[1] == 1 {
 					continue
 				}
